@@ -5,7 +5,9 @@ import (
 	"encoding/base64"
 	"encoding/json"
 	"fmt"
+	"github.com/gobwas/glob"
 	"net/url"
+	"regexp"
 	"sort"
 	"strconv"
 	"strings"
@@ -435,6 +437,23 @@ func TestReencodingIsInvisible(t *testing.T) {
 	})
 }
 
+// paramHolds: reference of the three path_params matcher types on an already decoded value ("/" separates for globs).
+func paramHolds(p param, v string) bool {
+	switch p.Type {
+	case "exact":
+		return p.Value == v
+	case "glob":
+		g, err := glob.Compile(p.Value, '/')
+		if err != nil {
+			panic("harness: bad glob " + p.Value)
+		}
+
+		return g.Match(v)
+	default:
+		return regexp.MustCompile(p.Value).MatchString(v)
+	}
+}
+
 // insertSlash inserts an encoded slash into a generated position of the path.
 func insertSlash(t *rapid.T, path string, lower bool) string {
 	pos := rapid.IntRange(1, len(path)).Draw(t, "slashPos")
@@ -491,7 +510,7 @@ func TestEncodedSlashHandling(t *testing.T) {
 	exclLower := vkit.Known(kfLowerCase, lowerCaseSlashBroken)
 
 	rapid.Check(t, func(t *rapid.T) {
-		setting := rapid.SampledFrom([]string{"", "off", "on", "no_decode", "default_rule"}).Draw(t, "setting")
+		setting := rapid.SampledFrom([]string{"", "off", "on", "no_decode", "default_rule", "mixed", "mixed"}).Draw(t, "setting")
 		lower := rapid.Bool().Draw(t, "lowerCaseHex")
 		entry := rapid.SampledFrom([]vkit.Entry{vkit.EntryDecision, vkit.EntryProxy}).Draw(t, "entry")
 		mode := map[vkit.Entry]config.OperationMode{vkit.EntryDecision: config.DecisionMode, vkit.EntryProxy: config.ProxyMode}[entry]
@@ -513,6 +532,34 @@ func TestEncodedSlashHandling(t *testing.T) {
 			withDefault = true
 		case rejecting:
 			rules = genRules(t, []string{setting}, true)
+		case setting == "mixed":
+			// rules with different accepting settings next to each other, those with "on" also with path_params (which
+			// see the decoded value): what a rule's routes do with a value must not leak into the routes tried after it
+			rules = genRules(t, []string{"on", "no_decode"}, true)
+
+			// in half of the cases two rules answer for the same expression: the first decodes ("on") and refuses the
+			// value through a path_params condition, the second leaves encoded slashes alone ("no_decode")
+			if len(rules) >= 2 && rapid.Bool().Draw(t, "sharedExpression") {
+				e := rules[0].Exprs[0]
+
+				for _, seg := range e {
+					if seg.Kind != vkit.Lit && seg.Name != "*" {
+						rules[0].Slash, rules[1].Slash = "on", "no_decode"
+						rules[0].Exprs, rules[0].Params = []vkit.Expr{e}, [][]param{{{seg.Name, "exact", "never-this-value"}}}
+						rules[1].Exprs, rules[1].Params, rules[1].BT = []vkit.Expr{e}, [][]param{nil}, rules[0].BT
+
+						break
+					}
+				}
+			}
+
+			for i := range rules {
+				if rules[i].Slash == "no_decode" {
+					for k := range rules[i].Params {
+						rules[i].Params[k] = nil
+					}
+				}
+			}
 		default:
 			rules = genRules(t, []string{setting}, false)
 		}
@@ -526,8 +573,27 @@ func TestEncodedSlashHandling(t *testing.T) {
 		var routes []vkit.RefRoute
 
 		for _, r := range rules {
-			for _, e := range r.Exprs {
-				routes = append(routes, vkit.RefRoute{Expr: e, RuleKey: r.ID, Backtrack: r.BT})
+			for i, e := range r.Exprs {
+				rr := vkit.RefRoute{Expr: e, RuleKey: r.ID, Backtrack: r.BT}
+
+				if ps := r.Params[i]; len(ps) != 0 {
+					rr.Holds = func(caps []vkit.Capture) bool {
+						for _, p := range ps {
+							for _, c := range caps {
+								if c.Name == p.Name {
+									v, _ := url.PathUnescape(c.Value) // only rules with "on" carry path_params here
+									if !paramHolds(p, v) {
+										return false
+									}
+								}
+							}
+						}
+
+						return true
+					}
+				}
+
+				routes = append(routes, rr)
 			}
 		}
 
@@ -615,6 +681,16 @@ func TestEncodedSlashHandling(t *testing.T) {
 		}
 
 		vkit.S.Label("slash.accepting_rule_applies")
+
+		if setting == "mixed" {
+			for _, r := range rules {
+				if r.ID == wantRule {
+					setting = r.Slash // what is expected from here on follows the setting of the rule which applies
+				}
+			}
+
+			vkit.S.Label("slash.mixed_settings.applies=" + setting)
+		}
 
 		if !resp.Positive || o.Rule != wantRule {
 			t.Fatalf("rule %s with allow_encoded_slashes=%s must accept %s (%s); got %+v\nrules: %v", wantRule, setting, path, entry, o, rules)
